@@ -67,10 +67,9 @@ CHECKS = {
     ),
     "C05": dict(
         verus=[dict(unit="container"), dict(unit="volume_scan", functions=["Record::", "File::records"])],
-        kani=[dict(crate="nexrad-data", files=["c05.rs", "c08.rs"], no_default_features=True, features=["decode"], harnesses=[
+        kani=[dict(crate="nexrad-data", files=["c05.rs", "c08s.rs"], contracts=False, no_default_features=True, features=["decode"], harnesses=[
             dict(name="c05_volume_header_text_fields", what="tape filename / extension number / ICAO accessors == header bytes 0..9 / 9..12 / 20..24 (ASCII)"),
-            dict(name="c08d_volume_header_date_time", what="date_time() == get_datetime(date, ms(time)) through the real 24-byte deserialize"),
-            dict(name="c08d_get_datetime_contract", what="the data crate's get_datetime contract, full domain"),
+            dict(name="c08d_volume_header_date_time", what="date_time() calls get_datetime(date, ms(time)) through the real 24-byte deserialize (closed form: C08)"),
         ])],
         trusted_base=STD_TRUST + ["i32::from_be_bytes / unsigned_abs std contracts; [u8]==[u8;N] compares contents"],
         not_decided=["decompress(record built from payload) == payload: reduces to bzip2's own round trip (C library behind FFI)",
@@ -90,19 +89,23 @@ CHECKS = {
                     "the loop terminates for every byte string.",
     ),
     "C08": dict(
-        kani=[dict(crate="nexrad-decode", files=["c08.rs"], harnesses=[
+        kani=[dict(crate="nexrad-decode", files=["c08.rs"], tag="-contract", harnesses=[
             dict(name="c08_get_datetime_contract", what="injected contract on util::get_datetime: all d in 1..=65535, all ms < 86_400_000: timestamp()==(d-1)*86400+t/1000, subsec millis==t%1000; chrono executed symbolically"),
-            dict(name="c08_get_datetime_contract_minutes", what="same contract through Duration::minutes, all u16 minutes below one day"),
+            dict(name="c08_get_datetime_contract_minutes", tier="thorough", what="same contract through Duration::minutes (subsumed by the millisecond harness: the Duration values coincide)"),
             dict(name="c08_get_datetime_total", what="no panic for all u16 x u32 ms and all u16 x u16 minutes"),
-            dict(name="c08_accessor_message_header", what="MessageHeader::date_time == get_datetime(date, ms(time)) for all field values"),
-            dict(name="c08_accessor_drd_header", what="digital_radar_data::Header::date_time == get_datetime(date, ms(time))"),
-            dict(name="c08_accessor_cfm_header", what="clutter_filter_map::Header::date_time == get_datetime(date, minutes(time))"),
-            dict(name="c08_accessor_rda_status", what="both generation date-times == get_datetime(own date, minutes(own time))"),
         ]),
-        dict(crate="nexrad-data", files=["c08.rs"], no_default_features=True, features=["decode"], harnesses=[
+        dict(crate="nexrad-decode", files=["c08s.rs"], tag="-callsites", contracts=False, harnesses=[
+            dict(name="c08_accessor_message_header", what="MessageHeader::date_time calls get_datetime(date, ms(time)) once and returns its result, all field values"),
+            dict(name="c08_accessor_drd_header", what="digital_radar_data::Header::date_time: get_datetime(date, ms(time))"),
+            dict(name="c08_accessor_cfm_header", what="clutter_filter_map::Header::date_time: get_datetime(date, minutes(time))"),
+            dict(name="c08_accessor_rda_status", what="both generation date-times: get_datetime(own date, minutes(own time))"),
+        ]),
+        dict(crate="nexrad-data", files=["c08.rs"], tag="-contract", no_default_features=True, features=["decode"], harnesses=[
             dict(name="c08d_get_datetime_contract", what="the data crate's own copy of get_datetime: same contract, full domain"),
             dict(name="c08d_get_datetime_total", what="no panic, all u16 x u32"),
-            dict(name="c08d_volume_header_date_time", what="volume::Header::date_time == get_datetime(date as u16, ms(time)) through the real 24-byte deserialize"),
+        ]),
+        dict(crate="nexrad-data", files=["c08s.rs"], tag="-callsites", contracts=False, no_default_features=True, features=["decode"], harnesses=[
+            dict(name="c08d_volume_header_date_time", what="volume::Header::date_time calls get_datetime(date as u16, ms(time)) through the real 24-byte deserialize"),
         ])],
         trusted_base=KANI_TRUST + ["kissat SAT solver (Kani bundle)"],
         explanation="Kani function contract on the two get_datetime copies proved over the full domain with chrono executed "
@@ -148,13 +151,12 @@ CHECKS = {
     ),
     "C13": dict(
         verus=[dict(unit="cfm_decode")],
-        kani=[dict(crate="nexrad-decode", files=["c13.rs", "c08.rs", "wire_layout.rs"], harnesses=[
+        kani=[dict(crate="nexrad-decode", files=["c13.rs", "c08s.rs", "wire_layout.rs"], contracts=False, harnesses=[
             dict(name="wire_layout_CfmHeader", what="6-byte header layout"),
             dict(name="wire_layout_AzimuthSegmentHeader", what="2-byte azimuth segment header"),
             dict(name="wire_layout_RangeZone", what="4-byte range zone"),
             dict(name="c13_op_code", what="op codes 0,1,2 -> bypass / bypass map in control / force"),
             dict(name="c08_accessor_cfm_header", what="generation date-time == get_datetime(date, minutes(time))"),
-            dict(name="c08_get_datetime_contract_minutes", what="get_datetime contract (minutes domain)"),
         ])],
         trusted_base=STD_TRUST + KANI_TRUST + ["reader model + deserialize contract (layouts proved by the three layout harnesses)"],
         explanation="decode_clutter_filter_map extracted verbatim; three nested loop invariants over a ghost cursor prove the "
